@@ -24,6 +24,8 @@ class Wire:
     def __init__(self):
         self.script = []
         self.log = []
+        self.recvs = []      # script of recvfrom answers for the current call
+        self.taken = []      # non-empty datagrams handed over, in order
 
     def send(self, data, da):
         o = self.script.pop(0) if self.script else "k"
@@ -47,7 +49,18 @@ class FakeSock:
     def getsockname(self): return self.addr
     def close(self): pass
     def sendto(self, data, da): return self.wire.send(data, da)
-    def recvfrom(self, n): raise BlockingIOError(errno.EAGAIN, "nothing")
+
+    def recvfrom(self, n):
+        o = self.wire.recvs.pop(0) if getattr(self.wire, "recvs", None) else "n"
+        if o == "n":
+            raise BlockingIOError(errno.EAGAIN, "nothing")
+        if o[0] == "g":
+            src, i = o[1:].split(":")
+            self.wire.taken.append((int(i), int(src)))
+            return (str(int(i)).encode("ascii"), ha_of(int(src)))
+        if o[0] == "z":
+            return (b"", ha_of(int(o[1:])))
+        raise OSError(int(o), "scripted")
 
 
 class SockShim:
@@ -102,6 +115,14 @@ def show_pkts(l):
     return ",".join("%d@%d" % p for p in l)
 
 
+def msgs_src(msgs, taken):
+    """messages are plain texts; datagram ids are unique within a case, so the source is looked up in the log"""
+    src = {}
+    for i, d in taken:
+        src.setdefault(i, d)
+    return ["%d@%s" % (int(m), src.get(int(m), "?")) for m in msgs]
+
+
 class CHECK(core.Check):
     PROPERTY = "C35"
     LEAN_MODULES = ["IofloModel.Props.C35"]
@@ -115,7 +136,9 @@ class CHECK(core.Check):
             "transient errnos; ~8% of cases also a non-transient errno = malformed stream) for each send, close/reopen; "
             "bounded-exhaustive: every queue of <= 4 (quick) / <= 6 (thorough) packets over <= 3 destinations (one "
             "representative per renaming) x every ok/fail pattern of the first pass x every pattern of length <= 3 of "
-            "the second pass, then a clean pass. Non-trivial = a destination with >= 2 packets, at least one failed "
+            "the second pass, then a clean pass; every fifth random case exercises the receive side (stack 'rx': scripted "
+            "recvfrom answers — datagrams from 1..3 sources, empty reads, zero-length datagrams, transient and other "
+            "errnos — serviceReceives/serviceReceivesOnce/serviceRxPkts, remotes added). Non-trivial = a destination with >= 2 packets, at least one failed "
             "send and at least one accepted datagram; distinct by (stack kind, call sequence).")
     TRUSTED = ["correspondence: real UdpStack/GramStack (tree + fixes/D20-gramstack-break-reorders.patch) driven through "
                "a socket double vs Lean driver 'gram' on the same calls; compared: datagrams accepted/refused by the double, "
@@ -127,7 +150,9 @@ class CHECK(core.Check):
                "region onceReorders (known finding D20b: a failed serviceTxPktsOnce re-queues the packet behind its "
                "successor); C35_counterexample_once is the witness",
                "non-transient socket errors are outside the property (the model reproduces that the popped packet "
-               "and the `laters` of the pass are lost when one escapes); receive side not modelled",
+               "and the `laters` of the pass are lost when one escapes)",
+               "receive side: a zero-length datagram ends the receive pass and is dropped (`if not raw: return False`); "
+               "reproduced by the model, stated in C35_rx_* relative to non-empty datagrams",
                "real UDP sockets / kernel behaviour not modelled (environment = arbitrary script of answers)"]
     TECHNIQUE = ("Lean 4 theorems (loop invariant of the pass by induction on the queue; history theorems by induction "
                  "on the call sequence) + differential correspondence through socket doubles + direct oracle")
@@ -139,7 +164,8 @@ class CHECK(core.Check):
                   "C35_one_failure_per_destination_per_pass, C35_drains. C35_counterexample_asis(_blocked): the unpatched "
                   "loop violates order and blocks (D20, repaired by the fix patch). Partial: with serviceTxPktsOnce order "
                   "holds only outside region onceReorders (C35_per_destination_order_partial, C35_counterexample_once; "
-                  "known finding D20b).")
+                  "known finding D20b). Receive side (extra): C35_rx_each_datagram_once, C35_rx_messages_in_order, "
+                  "C35_rx_transient_errors_do_not_escape, C35_rx_pass_takes_all.")
     LEVEL_NOTE = ("Trusted: Lean kernel; axioms propext, Classical.choice, Quot.sound; the hand transcription of "
                   "GramStack's transmit side, validated by the correspondence runs through socket doubles (bounded-exhaustive "
                   "queues <= 6 packets / 3 destinations with all failure patterns, plus random histories); the doubles; "
@@ -215,9 +241,42 @@ class CHECK(core.Check):
             return rng.choice(["A" + self._script(rng, n, pfail, fatal), "M"])
         return "P" + self._script(rng, n, pfail, fatal)
 
+    def _rx_case(self, rng):
+        nsrc = rng.randrange(1, 4)
+        ops, nid = [], 0
+        known = [d for d in range(nsrc) if rng.random() < 0.7]
+        for d in known[:1]:
+            ops.append("r%d" % d)
+        for _ in range(rng.randrange(2, 10)):
+            r = rng.random()
+            if r < 0.6:
+                sc = []
+                for _ in range(rng.randrange(0, 6)):
+                    x = rng.random()
+                    if x < 0.65:
+                        nid += 1
+                        sc.append("g%d:%d" % (rng.randrange(nsrc), nid))
+                    elif x < 0.75:
+                        sc.append("n")
+                    elif x < 0.80:
+                        sc.append("z%d" % rng.randrange(nsrc))
+                    elif x < 0.95:
+                        sc.append(str(rng.choice(TRANSIENT)))
+                    else:
+                        sc.append(str(rng.choice(FATAL[:3] + [errno.ENOBUFS])))
+                ops.append(("V" if rng.random() < 0.8 else "W") + ",".join(sc))
+            elif r < 0.8:
+                ops.append("K")
+            elif r < 0.92 and len(known) > 1:
+                ops.append("r%d" % rng.choice(known))
+            else:
+                ops.append(rng.choice(["c", "o"]))
+        ops += ["o", "V", "K"]
+        return {"stack": "rx", "ops": ops}
+
     def generate(self, rng, n, tier):
-        for _ in range(n):
-            yield self._case(rng)
+        for i in range(n):
+            yield self._rx_case(rng) if i % 5 == 4 else self._case(rng)
 
     def search(self, rng, n, tier):
         # the property's own quantifier: transient failures only, full passes
@@ -231,6 +290,8 @@ class CHECK(core.Check):
         from ioflo.aio.proto import stacking, packeting, devicing
         kind = case["stack"]
         wire = Wire()
+        if kind == "rx":
+            return self._impl_rx(case, wire)
         saved = udping.socket
         try:
             if kind == "udp":
@@ -298,8 +359,52 @@ class CHECK(core.Check):
         finally:
             udping.socket = saved
 
+    def _impl_rx(self, case, wire):
+        """receive side: real UdpStack over real SocketUdpNb whose recvfrom is scripted"""
+        import socket as real_socket
+        from ioflo.aio.udp import udping
+        from ioflo.aio.proto import stacking, devicing
+        saved = udping.socket
+        udping.socket = SockShim(real_socket, wire)
+        try:
+            stack = stacking.UdpStack(ha=("127.0.0.1", 40001))
+            out = []
+            for tok in case["ops"]:
+                k, arg = tok[0], tok[1:]
+                wire.recvs = []
+                err = "ok"
+                try:
+                    if k == "r":
+                        if ha_of(int(arg)) not in stack.haRemotes:
+                            stack.addRemote(devicing.IpRemoteDevice(stack, ha=ha_of(int(arg))))
+                    elif k in "VW":
+                        wire.recvs = [x for x in arg.split(",") if x]
+                        (stack.serviceReceives if k == "V" else stack.serviceReceivesOnce)()
+                    elif tok == "K":
+                        stack.serviceRxPkts()
+                    elif tok == "c":
+                        stack.close()
+                    elif tok == "o":
+                        stack.reopen()
+                    else:
+                        return ["bad-op"]
+                except OSError as ex:
+                    err = "x%s" % (ex.args[0] if ex.args else "?")
+                except Exception as ex:
+                    err = "x" + type(ex).__name__
+                pk = [(int(p.packed), dst_of(ha)) for p, ha in stack.rxPkts]
+                # every message carries its text only; the source is recovered from the packets popped so far
+                msgs = list(stack.rxMsgs)
+                out.append("%s ; P=%s G=%s T=%s o=%d" % (err, show_pkts(pk), ",".join(msgs_src(msgs, wire.taken)),
+                                                         show_pkts(wire.taken), 1 if stack.handler.opened else 0))
+            return out or ["-"]
+        finally:
+            udping.socket = saved
+
     # ---- model
     def requests(self, case):
+        if case["stack"] == "rx":
+            return ["rx " + " ".join(case["ops"])]
         return ["run repaired " + " ".join(case["ops"])]
 
     def model_post(self, case, replies):
@@ -318,6 +423,8 @@ class CHECK(core.Check):
     def oracle(self, case, out):
         if out and (out[0] == "bad-op" or out[0].startswith("HARNESS-EXC")):
             return None if out[0] == "bad-op" else out[0]
+        if case["stack"] == "rx":
+            return self._oracle_rx(case, out)
         if not self._transient_only(case):
             return None                      # outside the property's quantifier
         ops = case["ops"]
@@ -363,7 +470,38 @@ class CHECK(core.Check):
             return "sent %s + queued %s + msgs %s is not the multiset submitted %s" % (sent, q, ms_final, submitted)
         return None
 
+    def _oracle_rx(self, case, out):
+        """every datagram the socket handed over is in exactly one received packet, with its source, in arrival order;
+        packets of sources with a remote become messages in order; transient receive errors do not escape"""
+        if len(out) != len(case["ops"]):
+            return "implementation answered %d of %d calls" % (len(out), len(case["ops"]))
+        popped, remotes, want_msgs = [], set(), []
+        prevP = []
+        for tok, line in zip(case["ops"], out):
+            err, st = line.split(" ; ")
+            f = dict(x.split("=", 1) for x in st.split(" "))
+            P = [x for x in f["P"].split(",") if x]
+            G = [x for x in f["G"].split(",") if x]
+            T = [x for x in f["T"].split(",") if x]
+            if tok[0] == "r":
+                remotes.add(tok[1:])
+            if tok == "K":
+                popped += prevP
+                want_msgs += [x for x in prevP if x.split("@")[1] in remotes]
+            if err != "ok":
+                code = err[1:]
+                if not code.isdigit() or int(code) in TRANSIENT:
+                    return "call %s: %s escaped" % (tok[:14], err)
+            if popped + P != T:
+                return "after %s: packets delivered %s != datagrams received %s" % (tok[:14], popped + P, T)
+            if G != want_msgs:
+                return "after %s: messages %s, expected %s" % (tok[:14], G, want_msgs)
+            prevP = P
+        return None
+
     def nontrivial(self, case, out):
+        if case["stack"] == "rx":
+            return any("T=" in l and l.split("T=")[1].split(" ")[0].count(",") >= 1 for l in out)
         if not out or " ; " not in out[0]:
             return False
         per, anyf, anys = {}, False, False
@@ -378,6 +516,13 @@ class CHECK(core.Check):
         return anyf and anys and max(per.values() or [0]) >= 2
 
     def bucket(self, case, out):
+        if case["stack"] == "rx":
+            tags = ["rx"]
+            if any(l.startswith("x") for l in out):
+                tags.append("raised")
+            if any(t[0] in "VW" and any(x.isdigit() for x in t[1:].split(",")) for t in case["ops"]):
+                tags.append("errors")
+            return "/".join(tags)
         ops = case["ops"]
         npk = sum(1 for t in ops if t[0] in "tm")
         nd = len(set(t.split("@")[1] for t in ops if t[0] in "tm"))
@@ -416,6 +561,9 @@ class CHECK(core.Check):
                         cands.append({"stack": case["stack"], "ops": ops[:i] + [t[0] + ",".join(parts[:j] + ["k"] + parts[j + 1:])] + ops[i + 1:]})
         cands = [c for c in cands if c["ops"]]
         if not cands:
+            return
+        if case["stack"] == "rx":
+            yield from cands
             return
         if any(t[0] == "O" for t in ops):
             rep = core.Driver(self.ENGINE).run(["region D20b " + " ".join(c["ops"]) for c in cands])
